@@ -283,8 +283,19 @@ impl Check for C17 {
             if p1 != p2 {
                 return Err(format!("toml::Table does not reach a fixed point in one step: {:?} -> {:?}", p1, p2));
             }
-            if tv.to_string() != tv.to_string() || tv.to_string() != p1 {
-                return Err(format!("Display of a parsed toml::Table differs from to_string: {:?} vs {:?}", tv.to_string(), p1));
+            // "parsing a toml::Table and printing it twice gives the same text"; Display is a printer of its own (whether
+            // it spells things like toml::to_string is not promised): valid, decodes to the table, fixed point
+            let d1 = tv.to_string();
+            if d1 != tv.to_string() {
+                return Err(format!("printing a parsed toml::Table twice gives different text: {:?}", d1));
+            }
+            valid(&d1).map_err(|e| format!("Display of a parsed toml::Table {:?} is {}", d1, e))?;
+            let dv: toml::Table = toml::from_str(&d1).map_err(|e| format!("Display output {:?} does not parse: {}", d1, e.message()))?;
+            if crate::real::canon_toml_table(&dv, true) != crate::real::canon_toml_table(&tv, true) {
+                return Err(format!("Display of a parsed toml::Table decodes differently: {:?}", d1));
+            }
+            if dv.to_string() != d1 {
+                return Err(format!("Display of a toml::Table is not a fixed point: {:?} -> {:?}", d1, dv.to_string()));
             }
             // plain vs pretty decode equal
             let pretty = toml::to_string_pretty(v).map_err(|e| e.to_string())?;
@@ -501,7 +512,7 @@ pub fn c17(tier: Tier) -> i32 {
         "C17",
         tier,
         "model_checking",
-        "for every serializable value v of the derive family: to_string is deterministic, to_string(from_str(to_string(v))) == to_string(v) through the type and through toml::Table, Display == to_string, plain / pretty / toml_edit-pretty outputs decode equal; for every toml::Value table with n keys, every assignment of 7 entry kinds (scalar, array, array of tables, table, mixed array, empty table, empty array) and every insertion order, at two nesting depths: three printers give valid TOML (specification model) that decodes to the same tree and is a fixed point; non-trivial = every distinct value / tree",
+        "for every serializable value v of the derive family: to_string is deterministic, to_string(from_str(to_string(v))) == to_string(v) through the type and through toml::Table, Display of a parsed Table is deterministic / valid / decodes equal / a fixed point, plain / pretty / toml_edit-pretty outputs decode equal; for every toml::Value table with n keys, every assignment of 7 entry kinds (scalar, array, array of tables, table, mixed array, empty table, empty array) and every insertion order, at two nesting depths: three printers give valid TOML (specification model) that decodes to the same tree and is a fixed point; non-trivial = every distinct value / tree",
     );
     rep.assumptions = vec!["this binary is built in the default configuration (sorted maps); the insertion-ordered configuration runs the same enumeration in the cfg engine's binary (C18)".into()];
     let t0 = std::time::Instant::now();
